@@ -330,3 +330,24 @@ Section H7.
     apply Forall_forall. intros m Hm. apply (E2E.dict_onodes_wf cfg Hcfg tk t Hsc Hkeys p m Hm).
   Qed.
 End H7.
+
+(* the same under the hypotheses of the end-to-end theorem (C01_tokenizer_end_to_end H5-H7) *)
+Section E2EPath.
+  Hypothesis Hfwd : O.OF.continuity_forward = true.
+  Hypothesis Hfix : O.OF.regex_ignores_empty_match = true.
+  Variable cfg : bcfg.
+  Hypothesis Hcfg : cfg_ok cfg = true.
+
+  Theorem oov_pos_on_best_path_e2e tk t a :
+    Forall E2E.scalar t -> (forall L, In L (tk_lexs tk) -> LL.lex_keys_utf8 L) ->
+    (forall q, In q (tk_provs tk) -> W.provider_oracle_ok q (length t)) ->
+    pre_split cfg tk t = Ok a -> forall nd w, In (nd, w) (pr_path a) ->
+    (exists wc, In wc (dict_ids cfg tk t (nbeg nd)) /\ w = fst wc /\ nend nd = snd wc)
+    \/ (exists q o, In q (tk_provs tk) /\ In o (provider_templates q) /\ w = oov_id (O.o_pos o)
+                    /\ nleft nd = O.o_left o /\ nright nd = O.o_right o /\ ncost nd = O.o_cost o).
+  Proof.
+    intros Hsc Hkeys Hor. apply oov_pos_on_best_path_generic.
+    intros p m Hm. apply (E2E.offered_wf Hfwd Hfix cfg Hcfg tk t Hsc Hkeys Hor p).
+    unfold offered, OL.no_fallback. destruct (offered_at cfg tk t p); [contradiction|exact Hm].
+  Qed.
+End E2EPath.
